@@ -1136,7 +1136,7 @@ class NetworkServiceElement(ApplicationServiceElement):
                     if _debug: NetworkServiceElement._debug("    - already waiting")
                 else:
                     self.network_number_is_task = FunctionTask(self.network_number_is, adapter)
-                    self.network_number_is_task.install_task(delta=10 * 1000)
+                    self.network_number_is_task.install_task(delta=10.0)
                     return
 
         # send out what we know
